@@ -826,7 +826,7 @@ def copy_iso(src, dst, a0, b0, fresh):
                     return "%s: reference to page %d became %r" % (where, a, vd)
                 b = vd[1]
                 db = dst.get(b)
-                if db is None or (isinstance(db, dict) and db.get("/Mk") == sa.get("/Mk")):
+                if db is None or (b not in fresh and isinstance(db, dict) and db.get("/Mk") == sa.get("/Mk")):
                     return None
                 return "%s: page %d behind a page boundary was copied or replaced by something else (%d)" % (where, a, b)
             if not (isinstance(vd, tuple) and vd[0] == "r"):
